@@ -153,6 +153,24 @@ CLAIMED['C20'] = (
 OVERRIDE['C20'] = ('proof', 'static taint (information-flow) analysis over the real ast, exhaustive over all sinks and paths '
                    '(over-approximating); back end eval-ast')
 
+CLAIMED['C19'] = (
+    'BOUNDED (never counted as proved) plus one exhaustive source-text fact.  Bounded: a deterministic enumeration of '
+    '16 770 one-point mutations of 5 valid base configurations (131 key paths x 122 type-confused / boundary values, '
+    'deletions, unknown keys, duplicated lists, foreign listen addresses): loading ends normally or with '
+    'ConfigurationError, and whatever is loaded equals an independent reading of the same dictionary; a grid of 2 458 '
+    'valid configurations is compared field by field (proposals in the listed order, defaults, no ENCR for AH, NO_ESN, '
+    'selectors, ports, protocol, mode, lifetimes, DPD, typed identities, credentials, keying by address pair, listen '
+    'address check) with expectation tables written from RFC 7296/4868/3526/5903 and IANA.  Exhaustive (eval-ast): an '
+    'over-approximating exception-escape scan of configuration.py from Configuration.__init__ finds no operation that '
+    'can raise anything but ConfigurationError outside a converting handler.  Found and repaired: F9, F9b.',
+    'Configuration values are untyped nested dict / list / str / float objects from YAML; the contract language of the '
+    'verifier has no model of dynamically typed values, so no for-all-dictionaries contract is discharged: the bounded '
+    'enumeration stands in and is labelled as such.  YAML parsing, file I/O and the PEM library are outside.  '
+    'contracts/C19_NOTES.md lists grammar, bounds and assumptions.',
+    'DESIGN.md section 6 C19')
+OVERRIDE['C19'] = ('exploration', 'bounded deterministic enumeration of configuration dictionaries against an independent reader '
+                   '(labelled bounded) + exhaustive exception-escape scan of configuration.py (eval-ast)')
+
 NOT_YET ='not yet claimed: contracts for this property are still being brought under the verifier (DESIGN.md section 6)'
 
 
